@@ -547,12 +547,18 @@ def run_batch(args):
                 bad = [(q, rec, C.parse_reply(l)) for q, rec, l in zip(queries, records, outq)
                        if C.parse_reply(l) != rec]
                 res["dyn"] = dict(transitions=len(queries), states=nstates, mismatches=len(bad))
-                for q, rec, got in bad[:3]:
-                    res["findings"].append(dict(property="C17", kind="failing-input",
-                        what="the environment built from a loaded file does not enforce what the file says "
-                             f"(fields {suite_dyn.diff_fields(rec, got)[:4]})",
-                        replay=dict(kind="load-dyn", document=doc, query=q, impl_output=rec[:300],
-                                    model_output=got[:300])))
+                if bad:
+                    # a dynamics disagreement on a loaded scenario is charged to the loader only when
+                    # no step predicate is violated (then it belongs to C01..C08, decided by DYN)
+                    pl = C.run_driver(lines + [suite_dyn.p_request(q, rec) for q, rec, _ in bad[:50]])
+                    unexplained = [(q, rec, got) for (q, rec, got), l in zip(bad[:50], pl)
+                                   if all(v == 1 for v in C.parse_reply(l))]
+                    for q, rec, got in unexplained[:3]:
+                        res["findings"].append(dict(property="C17", kind="correspondence",
+                            what="the environment built from a loaded file behaves differently from the model on the "
+                                 f"same scenario (fields {suite_dyn.diff_fields(rec, got)[:4]})",
+                            replay=dict(kind="load-dyn", document=doc, query=q, impl_output=rec[:300],
+                                        model_output=got[:300])))
             except C.Untranslatable:
                 pass
         res["sample"] = dict(rule=cases[1][1] if len(cases) > 1 else None,
